@@ -109,6 +109,9 @@ pub open spec fn top_rank(e: Expression) -> int {
 }
 /// well-bracketed with respect to the table: left child at least as tight as the node, right
 /// child strictly tighter (left associativity); operand of a unary operator at least `* /`.
+// std function without a vstd specification: dropping a value has no effect a contract can see
+pub assume_specification<T> [ core::mem::drop::<T> ] (x: T);
+pub open spec fn pexprs_shape(xs: Seq<Expression>) -> bool { forall|i: int| 0 <= i < xs.len() ==> pe_shape(#[trigger] xs[i]) }
 pub open spec fn params_pt_ok(ps: Seq<(Identifier, Type)>) -> bool { forall|k: int| 0 <= k < ps.len() ==> pt_ok((#[trigger] ps[k]).1) }
 pub open spec fn wf(e: Expression) -> bool decreases e {
     match e.kind {
@@ -247,6 +250,7 @@ impl<'a> Context<'a> {
 //@   ret r
 //@   spec
         ensures r.0.tokens == self.tokens, //# C07 push_skip_newlines.spec.aux1
+            r.0.skip_newlines == skip_newlines && r.1 == self.skip_newlines, //# C14 push_skip_newlines.sets_the_mode_and_returns_the_old_one
 //@   endspec
 //@ end
 
@@ -256,6 +260,7 @@ impl<'a> Context<'a> {
 //@   ret r
 //@   spec
         ensures r.tokens == self.tokens, r.tok() == self.tok(), //# C13 ctx.pop_keeps_position
+            r.skip_newlines == skip_newlines, //# C14 pop_skip_newlines.restores_the_mode
 //@   endspec
 //@ end
 
@@ -454,23 +459,78 @@ impl Next for Prec {
 //@   mode assumed
 //@ end
 //@ fn sylt-parser/src/parser.rs assignable_call
-//@   mode assumed
+//@   props C07 C14
+//@   attr #[verifier::exec_allows_no_decreases_clause]
 //@   ret r
+//@   rewrite rule:R-lookahead
+//@- ctx = match ctx.tokens_lookahead::<2>() {
+//@-     [T::Newline, T::Comma] => ctx.skip(2),
+//@-     [T::Comma, T::Newline] => ctx.skip(2),
+//@-     [T::Comma, ..] => ctx.skip(1),
+//@-     _ => ctx,
+//@- };
+//@+ ctx = match (ctx.token().clone(), ctx.skip(1).token().clone()) {
+//@+     (T::Newline, T::Comma) => ctx.skip(2),
+//@+     (T::Comma, T::Newline) => ctx.skip(2),
+//@+     (T::Comma, _) => ctx.skip(1),
+//@+     _ => ctx,
+//@+ };
+//@   why Verus has neither const-generic array construction nor slice patterns: tokens_lookahead::<2>() is [ctx.token().clone(), ctx.skip(1).token().clone()], and a slice pattern over a 2-array is the tuple pattern over its two elements
+//@   endrewrite
 //@   spec
     requires
-        pa_shape(callee),
+        pa_shape(callee), //# C07 assignable_call.pre.callee_shape
     ensures
-        r is Ok ==> pa_shape(r->Ok_0.1),
+        r is Ok ==> pa_shape(r->Ok_0.1), //# C07 assignable_call.result_shape
 //@   endspec
+//@   loop 1
+        invariant pexprs_shape(args@), //# C07 assignable_call.loop1.arguments_have_shape
+//@   endloop
+//@   ghost entry
+    let ghost mode0 = ctx.skip_newlines;
+//@   endghost
+//@   ghost before
+//@| let mut ctx = ctx;
+    assert(ctx.skip_newlines == (if primer { mode0 } else { true })); //# C14 assignable_call.arguments_inside_parentheses_skip_newlines_a_prime_call_keeps_the_surrounding_mode
+    assert(newlines == mode0); //# C14 assignable_call.the_surrounding_mode_is_remembered
+//@   endghost
 //@ end
 //@ fn sylt-parser/src/parser.rs assignable_dot_or_variant
-//@   mode assumed
+//@   props C07
+//@   attr #[verifier::exec_allows_no_decreases_clause]
 //@   ret r
 //@   spec
     requires
-        pa_shape(accessed),
+        pa_shape(accessed), //# C07 assignable_dot_or_variant.pre.shape
     ensures
-        r is Ok ==> pa_shape(r->Ok_0.1),
+        r is Ok ==> pa_shape(r->Ok_0.1), //# C07 assignable_dot_or_variant.result_shape
+//@   endspec
+//@ end
+//@ fn sylt-parser/src/parser.rs assignable_variant
+//@   props C07
+//@   attr #[verifier::exec_allows_no_decreases_clause]
+//@   ret r
+//@   spec
+    requires
+        pa_shape(accessed), //# C07 assignable_variant.pre.shape
+    ensures
+        r is Ok ==> pa_shape(r->Ok_0.1), //# C07 assignable_variant.result_shape
+//@   endspec
+//@   ghost before
+//@| use AssignableKind::Variant;
+    assert(pe_shape(value)); //# - assignable_variant.hint1
+    assert(pa_shape(accessed)); //# - assignable_variant.hint2
+//@   endghost
+//@ end
+//@ fn sylt-parser/src/parser.rs assignable_dot
+//@   props C07
+//@   attr #[verifier::exec_allows_no_decreases_clause]
+//@   ret r
+//@   spec
+    requires
+        pa_shape(accessed), //# C07 assignable_dot.pre.shape
+    ensures
+        r is Ok ==> pa_shape(r->Ok_0.1), //# C07 assignable_dot.result_shape
 //@   endspec
 //@ end
 
